@@ -297,6 +297,9 @@ def build(states, slots, cluster_bits=16, version=3, size=None, window_at=0, tot
             ent = struct.pack(">QIHHIIQII", so, sl1n, len(sid), len(nm), 1700000000 + si, 0, 10 ** 9 * si, 0, len(extra))
             ent += extra + sid + nm
             ent += b"\0" * ((-len(ent)) % 8)
+            for fname, o, w in (("l1_table_offset", 0, 8), ("l1_size", 8, 4), ("id_str_size", 12, 2), ("name_size", 14, 2),
+                                ("vm_state_size", 32, 4), ("extra_data_size", 36, 4)):
+                img.field(f"snapshot[{si}].{fname}", snap_off + len(tab) + o, w, ">", "table")
             tab += ent
         img.put(snap_off, tab)
     # ---- header ------------------------------------------------------------------------------------------------------
